@@ -17,7 +17,7 @@ from sim import world as Wd
 ID = 'C05'
 LEVEL = 'fault_enumeration'
 ENGINE = 'crash'
-BUDGET = {'quick': 500, 'thorough': 20000}
+BUDGET = {'quick': 700, 'thorough': 20000}
 WALL = {'quick': 50, 'thorough': 1800}
 RULE = ('scenarios: trash-put of 1-3 entries (every entry kind incl. deep trees and symlinks), first use of the trash dir or name collisions, '
         'home / .Trash/$uid / .Trash-$uid, same-volume (one rename) and cross-volume with the home fallback enabled twice (every copy and '
@@ -111,6 +111,9 @@ def check(sim, case, st):
         for ev in r.trace:
             if ev[2] == 'KILL':
                 killop = ev[3]
+            elif ev[2] == 'INTR':
+                killop = 'sigint:' + ev[3]
+                st.probes['sigint-deliveries'] += 1
         tdirs = ML.trash_dirs_in(snap) | ML.trash_dirs_in(before)
         newp = [(T, N) for T in tdirs for N in ML.payloads(snap, T) - ML.payloads(before, T)]
         where = 'k=%s/%s before %s' % (k, n, killop)
